@@ -111,6 +111,16 @@ def impl(case):
             return _ip_call(G, lab, case["x"], case["y"], case["L"], case["S"], sets=(Lo, So))
         return _ip_call(G, lab, case["x"], case["y"], case["L"], case["S"])
     if k == "ipm":
+        if C.warm_decide({"g": g, "n": len(case["Q"]), "k": "same-object"}, 3):
+            # one pair of set objects for the whole series of queries, changed in place from query to query
+            Lo, So, res = set(), set(), []
+            for x, y, L, S in case["Q"]:
+                Lo.clear()
+                So.clear()
+                Lo.update(lab.fresh(v) for v in L)
+                So.update(lab.fresh(v) for v in S)
+                res.append(_ip_call(G, lab, x, y, L, S, sets=(Lo, So)))
+            return res
         return [_ip_call(G, lab, x, y, L, S) for x, y, L, S in case["Q"]]
     if k == "dm":
         from pywhy_graphs.algorithms import dag_to_mag
